@@ -18,6 +18,9 @@ pub fn run(rep: &mut Report, thorough: bool) {
     ];
     let cookies = learn_cookies(&cfg_plain(), &[flow4(40000, 80), flow6(40000, 80)]).unwrap_or_default();
     for (tag, cfg) in crate::props::cfg_variants() {
+        if rep.secondary && tag != "plain" && tag != "lists" {
+            continue;
+        }
         // UDP: source port sweep for STUN (v4, v6), DNS (v4), RPC (v4, v6), HTTP, SMB
         let pls = payloads();
         let udp_pl: Vec<&Payload> = pls.iter().filter(|p| p.via != Via::TcpOnly && p.answered).collect();
